@@ -52,7 +52,7 @@ static cat_return_state policy(struct hcall *h)
         if (r < 20) return pr_pct(&HP, 50) ? CAT_RETURN_STATE_NEXT : CAT_RETURN_STATE_DATA_NEXT;
         if (r < 45) return CAT_RETURN_STATE_DATA_OK;
         if (r < 60) return CAT_RETURN_STATE_OK;
-        if (r < 72 && h->fsm == FSM_A) return CAT_RETURN_STATE_HOLD;
+        if (r < 72 && (h->fsm == FSM_A || r < 63)) return CAT_RETURN_STATE_HOLD;      /* also from event handlers: what HOLD does there is not specified, but the mutex discipline must hold for every return code */
         if (r < 80) return CAT_RETURN_STATE_ERROR;
         if (r < 88) return h->fsm == FSM_U ? (pr_pct(&HP, 50) ? CAT_RETURN_STATE_HOLD_EXIT_OK : CAT_RETURN_STATE_HOLD_EXIT_ERROR) : CAT_RETURN_STATE_PRINT_CMD_LIST_OK;
         return CAT_RETURN_STATE_OK;
@@ -151,7 +151,7 @@ static void engine_history_with_mutex(void)
         nops = 0; fault_op = -1;
         eng_default_profile();
         EP.p_handler_trigger = 0;              /* a handler runs under the lock: calling the locking API from it would self-deadlock a non-recursive mutex (application bug, DESIGN 3.2) */
-        EP.p_event_step = 20 + rn(100); EP.p_hold = 20; EP.p_cut = 10;
+        EP.p_event_step = 20 + rn(100); EP.p_hold = 20; EP.p_cut = 10; EP.unspecified_cells = chance(40);
         NEXT_WORLD_USE_MUTEX = true;
         eng_gen_table();
         NEXT_WORLD_USE_MUTEX = false;
